@@ -1379,7 +1379,7 @@ class CodeGenerator(NodeVisitor):
         with_frame.symbols.analyze_node(node)
         self.enter_frame(with_frame)
         for target, expr in zip(node.targets, node.values, strict=False):
-            self.newline()
+            self.newline(target)
             self.visit(target, with_frame)
             self.write(" = ")
             self.visit(expr, frame)
@@ -1979,7 +1979,7 @@ class CodeGenerator(NodeVisitor):
 
     def visit_OverlayScope(self, node: nodes.OverlayScope, frame: Frame) -> None:
         ctx = self.temporary_identifier()
-        self.writeline(f"{ctx} = {self.derive_context(frame)}")
+        self.writeline(f"{ctx} = {self.derive_context(frame)}", node)
         self.writeline(f"{ctx}.vars = ")
         self.visit(node.context, frame)
         self.push_context_reference(ctx)
@@ -1995,7 +1995,7 @@ class CodeGenerator(NodeVisitor):
         self, node: nodes.EvalContextModifier, frame: Frame
     ) -> None:
         for keyword in node.options:
-            self.writeline(f"context.eval_ctx.{keyword.key} = ")
+            self.writeline(f"context.eval_ctx.{keyword.key} = ", node)
             self.visit(keyword.value, frame)
             try:
                 val = keyword.value.as_const(frame.eval_ctx)
